@@ -261,12 +261,13 @@ def check(prog: Program, tier: str) -> Result:
     _r19_13(prog, res)
     _r19_14(prog, res)
     _r19_15(prog, res)
+    _r19_16(prog, res)
     # a renamed binding is rewritten as ONE transaction (R19.3); that only keeps definition and uses together if the
     # scheduler applies a transaction wholly or not at all - decided by the C10 check, adopted here
     from . import c10 as _c10
     res.adopt(_c10.check(prog, tier), {"R10.1", "R10.3", "R10.6"}, "R19.3",
               "a rename is consistent only if its transaction is applied as a whole or not at all")
-    res.floors.update({"R19.1": 8, "R19.2": 4, "R19.3": 2, "R19.4": 1, "R19.5": 1, "R19.6": 1, "R19.7": 2, "R19.8": 6, "R19.9": 1, "R19.10": 1, "R19.11": 3, "R19.12": 1, "R19.13": 4, "R19.14": 1, "R19.15": 1})
+    res.floors.update({"R19.1": 8, "R19.2": 4, "R19.3": 2, "R19.4": 1, "R19.5": 1, "R19.6": 1, "R19.7": 2, "R19.8": 6, "R19.9": 1, "R19.10": 1, "R19.11": 3, "R19.12": 1, "R19.13": 4, "R19.14": 1, "R19.15": 1, "R19.16": 1})
     res.analysed.update({"named_node_constructions_reaching_output": n_ctor, "guarded_name_generators": sorted(f"{a}.{b}" for a, b in gens)})
     return res
 
@@ -1049,6 +1050,88 @@ def _r19_15(prog: Program, res: Result) -> None:
                "is renamed to the name of a *args / **kwargs parameter of its own scope and the two become one variable")
 
 
+def _renamer_classes(prog: Program) -> Dict[str, Tuple[int, str]]:
+    """NodeTransformer classes whose visit_Name answers `ast.Name(id=self.<attr>)` for the names equal to another attribute:
+    class name -> (position of the constructor parameter that holds the NEW name, that parameter's name)."""
+    out: Dict[str, Tuple[int, str]] = {}
+    for m in prog.modules.values():
+        for cls in ast.walk(m.tree):
+            if not (isinstance(cls, ast.ClassDef) and any(norm(b).endswith("NodeTransformer") for b in cls.bases)):
+                continue
+            visit = next((f for f in cls.body if isinstance(f, ast.FunctionDef) and f.name == "visit_Name"), None)
+            init = next((f for f in cls.body if isinstance(f, ast.FunctionDef) and f.name == "__init__"), None)
+            if visit is None or init is None:
+                continue
+            new_attr = None
+            for c in ast.walk(visit):
+                if isinstance(c, ast.Call) and norm(c.func) == "ast.Name":
+                    v = next((k.value for k in c.keywords if k.arg == "id"), c.args[0] if c.args else None)
+                    if isinstance(v, ast.Attribute) and isinstance(v.value, ast.Name) and v.value.id == "self":
+                        new_attr = v.attr
+            if new_attr is None:
+                continue
+            params = [a.arg for a in init.args.args][1:]
+            for st in ast.walk(init):
+                if isinstance(st, ast.Assign) and len(st.targets) == 1 and isinstance(st.targets[0], ast.Attribute) and st.targets[0].attr == new_attr \
+                        and isinstance(st.value, ast.Name) and st.value.id in params:
+                    out[cls.name] = (params.index(st.value.id), st.value.id)
+    return out
+
+
+def _r19_16(prog: Program, res: Result) -> None:
+    """A transformer that re-spells every Name `a` of a subtree as `b` merges the two variables wherever `b` is already read or bound in
+    that subtree (`[y for y in [x for x in data if x < y]]`: the inner `y` is the enclosing function's).  Every construction of such a
+    renamer is preceded, in the same loop body or function, by a refusal (`if ..: continue / return`) whose test searches THAT subtree (walk) for the new name."""
+    renamers = _renamer_classes(prog)
+    n = 0
+    for fn in prog.funcs.values():
+        for c in prog.calls_in(fn):
+            if not (isinstance(c.func, ast.Name) and c.func.id in renamers):
+                continue
+            pos, pname = renamers[c.func.id]
+            new = c.args[pos] if len(c.args) > pos else next((k.value for k in c.keywords if k.arg == pname), None)
+            if new is None:
+                continue
+            n += 1
+            new_text = norm(new)
+            # the tree the renamer is applied to: <renamer>.visit(T) / <variable bound to it>.visit(T), copies aside
+            holder = parent(c)
+            names = {t.id for t in holder.targets if isinstance(t, ast.Name)} if isinstance(holder, ast.Assign) else set()
+            visited = set()
+            for v in walk_own(fn.node):
+                if isinstance(v, ast.Call) and isinstance(v.func, ast.Attribute) and v.func.attr == "visit" and v.args \
+                        and (v.func.value is c or (isinstance(v.func.value, ast.Name) and v.func.value.id in names)):
+                    t = v.args[0]
+                    while isinstance(t, ast.Call) and norm(t.func).split(".")[-1] in ("deepcopy", "copy") and t.args:
+                        t = t.args[0]
+                    visited.add(norm(t))
+
+            def searches(test: ast.AST) -> bool:
+                for x in ast.walk(test):
+                    if isinstance(x, ast.Call) and norm(x.func).split(".")[-1] in ("walk", "walk_wildcard") and len(x.args) >= 2 \
+                            and norm(x.args[0]) in visited and new_text in norm(x.args[1]):
+                        return True
+                return False
+            guard = None
+            a = c
+            while a is not None and a is not fn.node:
+                p = parent(a)
+                body_lists = [getattr(p, f_, None) for f_ in ("body", "orelse", "finalbody")] if p is not None else []
+                for body in body_lists:
+                    if isinstance(body, list) and a in body:
+                        for st in body[:body.index(a)]:
+                            if isinstance(st, ast.If) and st.body and isinstance(st.body[-1], (ast.Continue, ast.Return, ast.Raise)) \
+                                    and searches(st.test):
+                                guard = st
+                a = p
+            res.decide(guard is not None, "R19.16", fn.loc(c), fn.fq, f"{short(c, 70)} # every name of a subtree re-spelled",
+                       f"refused at line {guard.lineno} when the subtree already holds the new name" if guard is not None else
+                       f"the names of a subtree are re-spelled as `{new_text}` and nothing above searches the subtree for a name spelled that way already: "
+                       "`[y for y in [x for x in data if x < y]]` became `[y for y in data if y < y]`, the enclosing `y` is captured")
+    if n == 0:
+        res.undecided("R19.16", "pyrefact/fixes.py:0", "fixes", "constructions of a renaming transformer", "none found (merge_nested_comprehensions is expected)")
+
+
 def _word_in(word: str, text: str) -> bool:
     import re as _re
     return _re.search(rf"(?<![\w.]){_re.escape(word)}(?![\w])", text) is not None
@@ -1181,6 +1264,13 @@ def _r19_7(prog: Program, res: Result) -> None:
 from ..selftest import Variant  # noqa: E402
 
 VARIANTS: List[Variant] = [
+    Variant("comprehensions-merged-without-looking-for-the-new-name", "FIRE", "fixes",
+            "                if target_name_inner != comprehension.target.id and any(\n                    core.walk(comprehension.iter, ast.Name(id=comprehension.target.id))\n                ):\n                    new_generators.append(comprehension)\n                    continue\n", "", "R19.16"),
+    Variant("new-name-looked-for-in-the-element-only", "FIRE", "fixes",
+            "                    core.walk(comprehension.iter, ast.Name(id=comprehension.target.id))\n                ):", "                    core.walk(comprehension.iter.elt, ast.Name(id=comprehension.target.id))\n                ):", "R19.16"),
+    Variant("new-name-looked-for-through-a-local", "SILENT", "fixes",
+            "                if target_name_inner != comprehension.target.id and any(\n                    core.walk(comprehension.iter, ast.Name(id=comprehension.target.id))\n                ):",
+            "                if any(core.walk(comprehension.iter, ast.Name(id=comprehension.target.id))) and target_name_inner != comprehension.target.id:"),
     Variant("declared-global-names-anonymised-in-the-duplicate-key", "FIRE", "fixes", "            frozenset(preserve) | declared_names | (names_with_a_meaning - own_names)\n", "            frozenset(preserve) | (names_with_a_meaning - own_names)\n", "R19.13"),
     Variant("duplicates-keyed-with-builtins-anonymised", "FIRE", "fixes", "        | tracing.get_import_bound_names(root)\n        | constants.BUILTIN_FUNCTIONS\n    )\n    for node in core.filter_nodes(root.body, ast.FunctionDef):",
             "        | tracing.get_import_bound_names(root)\n    )\n    for node in core.filter_nodes(root.body, ast.FunctionDef):", "R19.13"),
